@@ -10,6 +10,7 @@ MODULES = [
     "contracts.lem_time",
     "contracts.lem_guard",
     "contracts.lem_global",
+    "contracts.lem_entry",
     "contracts.lem_array",
     "contracts.lem_stmt",
     "contracts.lem_block",
